@@ -492,3 +492,77 @@ def c13_r7(ctx):
     ctx.ob(f, bad is None, "no path steps a bound and uses the pair without comparing start with end",
            detail="" if bad is None else "an exclusive bound at the edge of the domain leaves start > end; the pair reaches the encoder",
            path=cfgmod.path_text(bad) if bad else None)
+
+
+def _is_pow10(e, exp_ok):
+    return isinstance(e, ast.BinOp) and isinstance(e.op, ast.Pow) and isinstance(e.left, ast.Constant) and e.left.value == 10 \
+        and exp_ok(e.right)
+
+
+@rule("C13", "R8", "K4", "the decimal scaling is undone arithmetically",
+      min_instances=1, also=("C08",),
+      clause="prepare_number() turns a Decimal into an integer by multiplying with 10 ** decimal_places; unprepare_number() -- what "
+             "from_bytes() and from_column_value() return -- is its inverse only if it divides by the same power (x / 10 ** dc, "
+             "x * 10 ** -dc, Decimal(x).scaleb(-dc)).  Cutting the digit string of the integer at -dc is not: it has fewer than dc "
+             "digits for |value| < 1 (5 -> '.5' = 0.5 for 0.05) and a sign in front (-5 -> '-.5' is no number).")
+def c13_r8(ctx):
+    prog = ctx.prog
+    n = 0
+    for cls in prog.subclasses(prog.cls("fields.NUMERIC"), strict=False):
+        prep = cls.methods.get("prepare_number")
+        unprep = cls.methods.get("unprepare_number")
+        if prep is None and unprep is None:
+            continue
+        prep = prep or prog.lookup(cls, "prepare_number")
+        unprep = unprep or prog.lookup(cls, "unprepare_number")
+        if prep is None or unprep is None:
+            raise AnalysisError("%s has prepare_number without unprepare_number (or the reverse)" % cls.qualname)
+        ctx.saw(prep)
+        ctx.saw(unprep)
+
+        def dcs(func):
+            al = set(["self.decimal_places"])
+            for st in ast.walk(func.node):
+                if isinstance(st, ast.Assign) and norm.canon(st.value) == "self.decimal_places":
+                    for t in st.targets:
+                        if isinstance(t, ast.Name):
+                            al.add(t.id)
+            return al
+        pa, ua = dcs(prep), dcs(unprep)
+        scaled = [b for b in ast.walk(prep.node) if isinstance(b, ast.BinOp) and isinstance(b.op, ast.Mult) and
+                  (_is_pow10(b.right, lambda e: norm.canon(e) in pa) or _is_pow10(b.left, lambda e: norm.canon(e) in pa))]
+        if not scaled:
+            continue  # nothing to undo
+        n += 1
+        x = unprep.params[1] if len(unprep.params) > 1 else None
+        is_dc = lambda e: norm.canon(e) in ua
+        is_negdc = lambda e: isinstance(e, ast.UnaryOp) and isinstance(e.op, ast.USub) and is_dc(e.operand)
+        inverse = False
+        for b in ast.walk(unprep.node):
+            if isinstance(b, ast.BinOp) and isinstance(b.op, ast.Div) and _is_pow10(b.right, is_dc):
+                inverse = True
+            if isinstance(b, ast.BinOp) and isinstance(b.op, ast.Mult) and (_is_pow10(b.right, is_negdc) or _is_pow10(b.left, is_negdc)):
+                inverse = True
+            if isinstance(b, ast.Call) and norm.call_name(b) == "scaleb" and len(b.args) == 1 and is_negdc(b.args[0]):
+                inverse = True
+        # digit surgery: a slice whose bound mentions dc, taken from str(<number>)
+        strs = set()
+        for st in ast.walk(unprep.node):
+            if isinstance(st, ast.Assign) and isinstance(st.value, ast.Call) and norm.call_name(st.value) in ("str", "text_type", "repr"):
+                for t in st.targets:
+                    if isinstance(t, ast.Name):
+                        strs.add(t.id)
+        cut = []
+        for s in ast.walk(unprep.node):
+            if isinstance(s, ast.Subscript) and isinstance(s.slice, ast.Slice):
+                base_is_str = (isinstance(s.value, ast.Name) and s.value.id in strs) or (
+                    isinstance(s.value, ast.Call) and norm.call_name(s.value) in ("str", "text_type", "repr"))
+                bounds = [b for b in (s.slice.lower, s.slice.upper) if b is not None]
+                if base_is_str and any(any(is_dc(z) for z in ast.walk(b)) for b in bounds):
+                    cut.append(s)
+        ctx.ob(unprep, inverse and not cut, "unprepare_number() divides by the power of ten prepare_number() multiplied with",
+               detail=("the digit string is cut at the number of decimal places (%s): wrong for |value| < 1, no number for negative ones"
+                       % norm.canon(cut[0])) if cut else ("" if inverse else "no division by 10 ** decimal_places / scaleb(-decimal_places) found"),
+               loc=ctx.nodeloc(unprep, cut[0]) if cut else unprep.loc)
+    if n < 1:
+        raise AnalysisError("prepare_number no longer scales by 10 ** decimal_places")
